@@ -494,7 +494,26 @@ class GenDyn(Gen):
         cand = [q for q in (["P"], ["B"], ["B"]) if q in self.mir["sp"]]   # (B: a base of P, P.C or R)
         if not cand:
             return None
-        return {"op": "del_space", "p": self.rng.choice(cand)}
+        op = {"op": "del_space", "p": self.rng.choice(cand)}
+        if op["p"] == ["B"]:
+            return self.around_child(op)
+        return op
+
+    def around_child(self, op):
+        """Scenario: the child space P.C derives members from B; an instance P[i].C is evaluated,
+        then the derivation goes away INDIRECTLY (base removed / base deleted), then the same
+        instance is asked again."""
+        if ["B"] not in self.mir["bases"].get(("P", "C"), []) or not self.cur_pps():
+            return op
+        der = [c for c in self.enames_cells(["P", "C"]) if c not in self.mir["cells"][("P", "C")]]
+        own = [c for c in self.mir["cells"][("P", "C")]]
+        if not der or self.rng.random() < 0.25:
+            return op
+        st = [["i", "", self.key()], ["c", "C", []]]
+        calls = [{"op": "call", "c": [["P"], st, c], "args": self.rand_args(c), "sp": "pos"}
+                 for c in [self.rng.choice(der)] + own[:1]]
+        self.queue += [op] + [dict(c) for c in calls]
+        return calls[0]
 
     def mk_add_bases(self):
         # B becomes a base of P, or of R (the space the nested instances P[i].Q[k] are built from)
@@ -545,6 +564,8 @@ class GenDyn(Gen):
             calls = self.instance_calls()
             self.queue += [op] + [dict(c) for c in calls]
             return calls[0]
+        if t == ["P", "C"]:
+            return self.around_child(op)
         return op
 
     def update(self, op, res, ev=None):
